@@ -5,7 +5,7 @@ from .. import scope_check
 
 PID = 'C18'
 # repairs of C18 defects present in /repo (fix: commits); the specification's repaired clauses are switched on for them
-FIXES = ['F18']      # repaired in /repo (fix: lifecycle hooks run inside the process scope)
+FIXES = ['F18', 'F18c']      # repaired in /repo (fix: lifecycle hooks run inside the process scope)
 # not repaired: 'F18c' (the user's own close() runs on_close / the cleanup callbacks in the caller's scope); the scenarios
 # that offer close() are switched off in scope_model.MODEL_USER_CLOSE until it is repaired or listed
 
